@@ -99,7 +99,9 @@ func New(opts *Options) (*Service, error) {
 		return nil, err
 	}
 
-	var metrics = new(metrics)
+	// without a registry the counters still have to exist: they are used on
+	// every failed handshake
+	var metrics = newMetrics(prometheus.NewRegistry(), defaultMetricsNamespace)
 	if opts.MetricsReg != nil {
 		rcmgr.MustRegisterWith(opts.MetricsReg)
 		metrics = newMetrics(opts.MetricsReg, defaultMetricsNamespace)
